@@ -1,4 +1,5 @@
 import MptModel.Impl.Config
+import MptModel.Impl.ConfigItems
 import MptModel.Spec.PathMap
 import Driver.Util
 namespace Driver.Config
@@ -11,6 +12,9 @@ structure St where
   mg : PathMap.PMap := []
   mp : PathMap.PMap := []
   views : List (List (List Byte)) := []
+  xi : List Item := []          -- C++ part: item array of the private configuration
+  mx : PathMap.PMap := []
+  xlive : Bool := false
   deriving Inhabited
 
 def fmtKey (k : List (List Byte)) : String := "/".intercalate (k.map toHex)
@@ -27,6 +31,12 @@ def dumpTree : Nat → List CNode → String
       toHex c.name ++ (if c.value.isSome then "*" else "") ++
         (if c.kids.isEmpty then "" else "(" ++ dumpTree f c.kids ++ ")") ++ ";")
 
+def dumpItems : Nat → List Item → String
+  | 0, _ => "?"
+  | f + 1, l => String.join (l.map fun c =>
+      (match c.name with | some n => toHex n | none => "~") ++ (if c.value.isSome then "*" else "") ++
+        (if c.elems.isEmpty then "" else "(" ++ dumpItems f c.elems ++ ")") ++ ";")
+
 def resName {α} : Res α → String
   | .ok _ => "ok" | .err e => e.name | .null => "null" | .oob => "OOB" | .fault => "FAULT"
 
@@ -35,6 +45,12 @@ def line (s : St) (r ret : String) (alts : List (String × String)) : String :=
   s!"R {r} | C {fmtC (pairs s.g) (pairs s.p)} | I ret={ret} tree={dumpTree 1000 s.g}|{dumpTree 1000 s.p} | S {sAlts}"
 
 def specC (s : St) : String := fmtC s.mg s.mp
+
+def xline (s : St) (r ret : String) (alts : List (String × String)) : String :=
+  let sAlts := " || ".intercalate (alts.map fun a => a.1 ++ " ; " ++ a.2)
+  s!"R {r} | C X[{fmtPairs (ipairs s.xi)}] | I ret={ret} tree={dumpItems 1000 s.xi} | S {sAlts}"
+
+def xspecC (s : St) : String := s!"X[{fmtPairs s.mx}]"
 
 /-- a C string: no zero byte -/
 def parseText (w : String) : Option (List Byte) :=
@@ -135,6 +151,44 @@ def step (s : St) (w : List String) : St × String :=
         | x => (s, line s "absent" (resName x) [(specR, specC s)])
       | x => (s, line s (resName x) "-" [("*", "*")])
     | _, _, _ => (s, "bad-op")
+  | ["g", "bset", tr, els, val] =>
+    -- binary length mode path: the elements are given one by one (1..255 bytes each)
+    match parseTree s tr, (els.splitOn ",").mapM parseText, parseText val with
+    | some tr, some es, some val =>
+      if es.any (fun e => e.isEmpty || e.length > 255) then (s, "bad-op") else
+      match tr with
+      | .priv =>
+        let sp' := { s with mp := PathMap.set s.mp es val }
+        match nodeAssign s.p es val with
+        | some p' =>
+          let s' := { sp' with p := p' }
+          (s', line s' "ok" "node" [("ok", specC s')])
+        | none => (s, line s "refused" "node" [("ok", specC sp')])
+      | .glob =>
+        let sp' := { s with mg := PathMap.set s.mg es val }
+        match configAssign s.g [] es val with
+        | .ok g' =>
+          let s' := { sp' with g := g' }
+          (s', line s' "ok" "0" [("ok", specC s')])
+        | x => (s, line s "refused" (resName x) [("ok", specC sp')])
+      | .view _ => (s, "bad-op")
+    | _, _, _ => (s, "bad-op")
+  | ["g", "bget", tr, els] =>
+    match parseTree s tr, (els.splitOn ",").mapM parseText with
+    | some tr, some es =>
+      if es.any (fun e => e.isEmpty || e.length > 255) then (s, "bad-op") else
+      let r : Option (Res (List Byte) × Option (List Byte)) := match tr with
+        | .priv => some (configQuery s.p [] es, PathMap.get s.mp es)
+        | .glob => some (configQuery s.g [] es, PathMap.get s.mg es)
+        | .view _ => none
+      match r with
+      | none => (s, "bad-op")
+      | some (res, specRes) =>
+        let specR := match specRes with | some v => "val=" ++ toHex v | none => "absent"
+        match res with
+        | .ok v => (s, line s ("val=" ++ toHex v) "0" [(specR, specC s)])
+        | x => (s, line s "absent" (resName x) [(specR, specC s)])
+    | _, _ => (s, "bad-op")
   | ["g", "view", pth, sp] =>
     match parseText pth, parseChar sp with
     | some pth, some sp =>
@@ -226,6 +280,91 @@ def step (s : St) (w : List String) : St × String :=
         else "*"
       (s, line s s!"added={built.2} elems={walked} last={lastTxt} del={delTxt}" s!"len={d.2.len} first={d.2.first}" [(specR, specC s)])
     | _, _ => (s, "bad-op")
+  | ["x", "begin"] =>
+    let s' : St := { xlive := true }
+    (s', xline s' "ok" "0" [("ok", xspecC s')])
+  | ["x", "set", pth, sp, val] =>
+    if !s.xlive then (s, "bad-op") else
+    match parseText pth, parseChar sp, parseText val with
+    | some pth, some sp, some val =>
+      let key := PathMap.splitPath sp 0 pth
+      match pathElems sp 0 pth with
+      | .ok es =>
+        let sp' := { s with mx := PathMap.set s.mx key val }
+        match itemAssign s.xi es val with
+        | some l' =>
+          let s' := { sp' with xi := l' }
+          (s', xline s' "ok" "0" [("ok", xspecC s')])
+        | none => (s, xline s "refused" "false" [("ok", xspecC sp')])
+      | x => (s, xline s (resName x) "-" [("ok", "*")])
+    | _, _, _ => (s, "bad-op")
+  | ["x", "del", pth, sp] =>
+    if !s.xlive then (s, "bad-op") else
+    match parseText pth, parseChar sp with
+    | some pth, some sp =>
+      let key := PathMap.splitPath sp 0 pth
+      match pathElems sp 0 pth with
+      | .ok es =>
+        let m' := PathMap.removePrefix s.mx key
+        let sp' := { s with mx := m' }
+        let alts := [("ok", xspecC sp')] ++ (if m'.length = s.mx.length then [("refused", xspecC s)] else [])
+        match itemWipe s.xi es with
+        | some l' =>
+          let s' := { sp' with xi := l' }
+          (s', xline s' "ok" "0" alts)
+        | none => (s, xline s "refused" "false" alts)
+      | x => (s, xline s (resName x) "-" [("ok", "*")])
+    | _, _ => (s, "bad-op")
+  | ["x", "get", pth, sp] =>
+    if !s.xlive then (s, "bad-op") else
+    match parseText pth, parseChar sp with
+    | some pth, some sp =>
+      let key := PathMap.splitPath sp 0 pth
+      match pathElems sp 0 pth with
+      | .ok es =>
+        let specR := match PathMap.get s.mx key with | some v => "val=" ++ toHex v | none => "absent"
+        let ex := if (itemFind s.xi es).isSome then "0" else "MissingData"
+        match rootQuery s.xi es with
+        | .ok v => (s, xline s ("val=" ++ toHex v) s!"0 exists={ex}" [(specR, xspecC s)])
+        | x => (s, xline s "absent" s!"{resName x} exists={ex}" [(specR, xspecC s)])
+      | x => (s, xline s (resName x) "-" [("*", "*")])
+    | _, _ => (s, "bad-op")
+  | ["x", "clear"] =>
+    if !s.xlive then (s, "bad-op") else
+    let s' := { s with xi := [], mx := [] }
+    (s', xline s' "ok" "0" [("ok", xspecC s')])
+  | ["x", "padd", sp, els] =>
+    if !s.xlive then (s, "bad-op") else
+    match parseChar sp, (els.splitOn ",").mapM parseText with
+    | some sp, some es =>
+      let p0 : Path := { sep := sp, assign := 0 }
+      let addElem := fun (acc : Path × String) (e : List Byte) =>
+        let p1 := e.foldl (fun (p : Path) c =>
+          let q := (pathAddChar p c).1
+          match pathValid q with | .ok (r, _) => r | _ => q) acc.1
+        match cxxPathAdd p1 e.length with
+        | .ok p2 => (p2, acc.2 ++ "+")
+        | _ => (p1, acc.2 ++ "E")
+      let built := es.foldl addElem (p0, "")
+      let p := built.1
+      let walked := match elems p (p.base.length + 2) with | .ok l => fmtElems l | x => resName x
+      let rec xdels (p : Path) : Nat → List Nat
+        | 0 => []
+        | k + 1 => if p.len = 0 then [] else
+          match pathDel p with
+          | .ok (q, n) => n :: xdels q k
+          | _ => []
+      let delTxt := ",".intercalate ((xdels p (es.length + 2)).map toString)
+      let valid := (es.all fun e => !e.contains sp) && (es.head?.map (·.length)) != some 0
+      let specR := if valid then
+          s!"added={String.join (es.map fun _ => "+")} elems={fmtElems es} del={",".intercalate (es.reverse.map fun e => toString e.length)}"
+        else "*"
+      (s, xline s s!"added={built.2} elems={walked} del={delTxt}" "0" [(specR, xspecC s)])
+    | _, _ => (s, "bad-op")
+  | ["x", "end"] =>
+    if !s.xlive then (s, "bad-op") else
+    let s' : St := {}
+    (s', xline s' "ok" "0" [("ok", xspecC s')])
   | ["g", "end"] =>
     let s' : St := {}
     (s', line s' "ok" "0" [("ok", specC s')])
